@@ -17,6 +17,17 @@ Definition res_map (st : st10) (r : outcome (result (list reg))) : obs10 * st10 
   | _ => (mkobs 9 [], add_map st None)
   end.
 
+(* the backing file the harness hands to a constructor route with file tag f, as (start, length of the file):
+   1 = a file of exactly `size` bytes mapped from offset 0, 2 = a file of 65536 + size bytes mapped from
+   offset 65536 (a multiple of every page size in use), anything else = no file *)
+Definition file_of_tag (f size : N) : option (N * N) :=
+  match f with
+  | 1 => if size <=? 16777216 then Some (0, size) else None             (* no file for sizes beyond 16 MiB *)
+  | 2 => if size <=? 16777216 then Some (65536, 65536 + size) else None
+  | _ => None end.
+Definition with_files (l : list (N * N * N)) : list (N * N * option (N * N)) :=
+  map (fun t => (fst (fst t), snd (fst t), file_of_tag (snd t) (snd (fst t)))) l.
+
 (* the implementation model of one operation of the history *)
 Definition m_step (m : mode) (st : st10) (op : op10) : obs10 * st10 :=
   let p := pool st in let ms := maps st in
@@ -68,6 +79,22 @@ Definition m_step (m : mode) (st : st10) (op : op10) : obs10 * st10 :=
       | None => (mkobs 8 [], st)
       end
   | ONewMap => (mkobs 0 [], add_map st (Some []))
+  | ONewVia f base size =>
+      match region_from_range_opt (mkreg (nlen p)) base size (file_of_tag f size) with
+      | Ok g => (mkobs 0 [], {| pool := p ++ [Some g]; maps := ms |})
+      | Err e => (mkobs (code_of e) [], {| pool := p ++ [None]; maps := ms |})
+      end
+  | OFromRangesF l =>
+      let no c := (mkobs c [], {| pool := p ++ dead (length l); maps := ms ++ [None] |}) in
+      match collect_ranges_files mkreg (nlen p) (with_files l) with
+      | Err e => no (code_of e)
+      | Ok L =>
+          match from_regions g_s g_l m L with
+          | Val (Ok L') => (mkobs 0 L', {| pool := p ++ map Some L; maps := ms ++ [Some L'] |})
+          | Val (Err e) => no (code_of e)
+          | _ => no 9
+          end
+      end
   end.
 
 Fixpoint m_steps (m : mode) (st : st10) (ops : list op10) {struct ops} : list obs10 :=
@@ -95,7 +122,15 @@ Fixpoint regs_of (l : list N) {struct l} : option (list reg) :=
               | s :: len :: t' => match regs_of t' with Some r => Some (mkreg i s len :: r) | None => None end
               | _ => None end
   end.
+Fixpoint triples_of (l : list N) {struct l} : option (list (N * N * N)) :=
+  match l with
+  | [] => Some []
+  | s :: t => match t with
+              | len :: f :: t' => match triples_of t' with Some r => Some ((s, len, f) :: r) | None => None end
+              | _ => None end
+  end.
 Definition in64 (x : N) : bool := x <? W64.
+Definition tag_ok (f : N) : bool := f <? 3.
 Definition op_of (t : tok) : option op10 :=
   match t with
   | TL [0; b; s] => if in64 b && in64 s then Some (ONew b s) else None
@@ -107,6 +142,11 @@ Definition op_of (t : tok) : option op10 :=
   | TL [4; m; b; s] => if in64 b && in64 s then Some (ORemove m b s) else None
   | TL [5; m; a] => if in64 a then Some (OFind m a) else None
   | TL [6] => Some ONewMap
+  | TL [7; f; b; s] => if in64 b && in64 s && tag_ok f then Some (ONewVia f b s) else None
+  | TL (9 :: l) => match triples_of l with
+                   | Some ts => if forallb (fun t => in64 (fst (fst t)) && in64 (snd (fst t)) && tag_ok (snd t)) ts
+                                then Some (OFromRangesF ts) else None
+                   | None => None end
   | _ => None
   end.
 Fixpoint ops_of (l : list tok) {struct l} : option (list op10) :=
